@@ -299,7 +299,7 @@ func (r *PaginatedResourceRepository[ResourceType, OptionsType]) Paginate(
 
 		_, field := r.resourceHandler.Schema().GetFieldByNameOrAlias(v.Column)
 		if field == nil {
-			return nil, fmt.Errorf("invalid property '%s' for pagination", v.Column)
+			return nil, NewErrInvalidQuery("invalid property '%s' for pagination", v.Column)
 		}
 
 		if !field.IsPaginated {
@@ -331,12 +331,19 @@ func (r *PaginatedResourceRepository[ResourceType, OptionsType]) Paginate(
 	)
 	switch v := any(paginationQuery).(type) {
 	case OffsetPaginatedQuery[OptionsType]:
+		if v.Order == nil {
+			v.Order = pointer.For(r.defaultOrder)
+		}
 		paginator = newOffsetPaginator[ResourceType, OptionsType](v)
 		resourceQuery = v.Options
 	case ColumnPaginatedQuery[OptionsType]:
 		fieldName, field := r.resourceHandler.Schema().GetFieldByNameOrAlias(v.Column)
 		if field == nil {
-			return nil, fmt.Errorf("invalid property '%s' for pagination", v.Column)
+			return nil, NewErrInvalidQuery("invalid property '%s' for pagination", v.Column)
+		}
+		if v.Order == nil {
+			// a cursor without order would make the column paginator dereference nil
+			v.Order = pointer.For(r.defaultOrder)
 		}
 		paginator = newColumnPaginator[ResourceType, OptionsType](v, fieldName, field.Type)
 		resourceQuery = v.Options
